@@ -453,3 +453,28 @@ def c07g(ctx):
     fl = [x for x in tl.walk() if is_call(x, 'FileLock')]
     ok = bool(fl) and all(unparse(x.args[0]) == 'lock_filename' and unparse(keyword(x, 'timeout')) == 'self.lock_timeout' for x in fl)
     ctx.check(ok, 'TileLocker.lock:file-lock', 'otherwise a FileLock on the tile\'s lock file with the configured timeout', tl)
+
+
+@rule('C07.h', floor=3)
+def c07h(ctx):
+    """the seed cache lock (one sqlite lock file, holders identified by pid): a holder's entry is removed by somebody else only
+    when its process is gone.  is_running(pid) answers "not running" for ESRCH alone -- EPERM means the process exists but belongs
+    to another user -- and _poll removes a foreign entry only on that answer"""
+    CL = 'mapproxy/seed/cachelock.py'
+    fn = ctx.fn(CL + ':is_running')
+    g = fn.cfg
+    falses = [n for n in g.find_stmts(lambda s: isinstance(s, ast.Return) and const_value(s.value, 1) is False)]
+    esrch = lambda at: at.op == '==' and 'errno' in at.text and 'ESRCH' in at.text
+    ok = bool(falses) and all(g.guarded(n, esrch, True) for n in falses)
+    ctx.check(ok, 'is_running:dead-only-for-ESRCH', 'a process is reported as not running only when kill(pid, 0) fails with ESRCH', fn,
+              fail='is_running() answers "not running" for errors other than ESRCH (e.g. EPERM: a live process of another user): the holder\'s '
+                   'lock entry is deleted and a second seeder enters the locked section')
+    kills = g.find(lambda x: is_call(x, 'os.kill') and len(x.args) == 2 and const_value(x.args[1]) == 0)
+    ctx.check(len(kills) == 1, 'is_running:signal-0', 'the probe is os.kill(pid, 0)', fn)
+    po = ctx.fn(CL + ':CacheLocker._poll')
+    g = po.cfg
+    rm = g.find(lambda x: is_call(x, 'self._remove_lock'))
+    alive = lambda at: at.op is None and is_call(at.expr, 'is_running')
+    ok = bool(rm) and all(g.guarded(n, alive, False) for n, x in rm)
+    ctx.check(ok, 'CacheLocker._poll:removes-dead-only', 'entries of other holders are removed only when is_running() is false', po,
+              fail='_poll removes the lock entry of a holder without finding its process gone')
